@@ -527,3 +527,13 @@ func Local[T any](e *Exec, key any, mk func() T) T {
 	e.Locals[key] = v
 	return v
 }
+
+type zeroChooser struct{}
+
+func (zeroChooser) Choose(*Choice) int { return 0 }
+
+// RunDefault executes main under the default schedule (every choice 0): used by sequential
+// harnesses that need the fakes, virtual time and owned randomness but no interleaving search.
+func RunDefault(opt Options, main func(e *Exec)) *Outcome {
+	return Run(zeroChooser{}, opt, func() { main(Cur()) })
+}
